@@ -5,6 +5,7 @@ CONSTANTS
   LoadConc = 1
   FIXD6 = TRUE
   FIXD7 = TRUE
+  FIXD11 = TRUE
 INVARIANT C12_NoSilentPartial
 INVARIANT C12_CrashSafe
 INVARIANT C05_StoreLoads
